@@ -14,60 +14,62 @@ static int get_bom_skip(const std::vector<char>& buff)
         return 0;
     // We are comparing against unsigned
     auto ubuff = reinterpret_cast<const unsigned char*>(buff.data());
-    if (ubuff[0] == 0xEF && ubuff[1] == 0xBB && ubuff[2] == 0xBF)
+    // bytes behind the end of a short file read as a value no mark contains at that place
+    auto at = [&](size_t i) -> int { return i < buff.size() ? ubuff[i] : -1; };
+    if (at(0) == 0xEF && at(1) == 0xBB && at(2) == 0xBF)
     {
         //UTF-8
         return 3;
     }
-    else if (ubuff[0] == 0xFE && ubuff[1] == 0xFF)
+    else if (at(0) == 0xFE && at(1) == 0xFF)
     {
         //UTF-16 (BE)
         return 2;
     }
-    else if (ubuff[0] == 0xFE && ubuff[1] == 0xFE)
+    else if (at(0) == 0xFE && at(1) == 0xFE)
     {
         //UTF-16 (LE)
         return 2;
     }
-    else if (ubuff[0] == 0x00 && ubuff[1] == 0x00 && ubuff[2] == 0xFF && ubuff[3] == 0xFF)
+    else if (at(0) == 0x00 && at(1) == 0x00 && at(2) == 0xFF && at(3) == 0xFF)
     {
         //UTF-32 (BE)
         return 2;
     }
-    else if (ubuff[0] == 0xFF && ubuff[1] == 0xFF && ubuff[2] == 0x00 && ubuff[3] == 0x00)
+    else if (at(0) == 0xFF && at(1) == 0xFF && at(2) == 0x00 && at(3) == 0x00)
     {
         //UTF-32 (LE)
         return 2;
     }
-    else if (ubuff[0] == 0x2B && ubuff[1] == 0x2F && ubuff[2] == 0x76 &&
-        (ubuff[3] == 0x38 || ubuff[3] == 0x39 || ubuff[3] == 0x2B || ubuff[3] == 0x2F))
+    else if (at(0) == 0x2B && at(1) == 0x2F && at(2) == 0x76 &&
+        (at(3) == 0x38 || at(3) == 0x39 || at(3) == 0x2B || at(3) == 0x2F))
     {
         //UTF-7
         return 4;
     }
-    else if (ubuff[0] == 0xF7 && ubuff[1] == 0x64 && ubuff[2] == 0x4C)
+    else if (at(0) == 0xF7 && at(1) == 0x64 && at(2) == 0x4C)
     {
         //UTF-1
         return 3;
     }
-    else if (ubuff[0] == 0xDD && ubuff[1] == 0x73 && ubuff[2] == 0x66 && ubuff[3] == 0x73)
+    else if (at(0) == 0xDD && at(1) == 0x73 && at(2) == 0x66 && at(3) == 0x73)
     {
         //UTF-EBCDIC
         return 3;
     }
-    else if (ubuff[0] == 0x0E && ubuff[1] == 0xFE && ubuff[2] == 0xFF)
+    else if (at(0) == 0x0E && at(1) == 0xFE && at(2) == 0xFF)
     {
         //SCSU
         return 3;
     }
-    else if (ubuff[0] == 0xFB && ubuff[1] == 0xEE && ubuff[2] == 0x28)
+    else if (at(0) == 0xFB && at(1) == 0xEE && at(2) == 0x28)
     {
         //BOCU-1
-        if (ubuff[3] == 0xFF)
+        if (at(3) == 0xFF)
             return 4;
         return 3;
     }
-    else if (ubuff[0] == 0x84 && ubuff[1] == 0x31 && ubuff[2] == 0x95 && ubuff[3] == 0x33)
+    else if (at(0) == 0x84 && at(1) == 0x31 && at(2) == 0x95 && at(3) == 0x33)
     {
         //GB 18030
         return 3;
